@@ -68,7 +68,7 @@ func Orderings(terms []string) []Ordering {
 			for j, t := range terms {
 				o[t] = ranks[j]
 			}
-			if constsConsistent(o) {
+			if constsConsistent(o) && integerFeasible(o) {
 				out = append(out, o)
 			}
 			return
@@ -105,6 +105,32 @@ func constsConsistent(o Ordering) bool {
 		for j := range cs {
 			if (cs[i].v < cs[j].v) != (cs[i].r < cs[j].r) || (cs[i].v == cs[j].v) != (cs[i].r == cs[j].r) {
 				return false
+			}
+		}
+	}
+	return true
+}
+
+// integerFeasible rejects orderings that place a term strictly between two
+// consecutive integer constants (terms are integers).
+func integerFeasible(o Ordering) bool {
+	for t1, r1 := range o {
+		v1, ok := constVal(t1)
+		if !ok {
+			continue
+		}
+		for t2, r2 := range o {
+			v2, ok := constVal(t2)
+			if !ok || v2 != v1+1 {
+				continue
+			}
+			for t3, r3 := range o {
+				if _, isC := constVal(t3); isC {
+					continue
+				}
+				if r1 < r3 && r3 < r2 {
+					return false
+				}
 			}
 		}
 	}
